@@ -6,7 +6,7 @@ from . import boot  # noqa: F401
 from collections import deque
 
 from . import enc
-from .monitor import env_slot
+from .monitor import env_rng_slots
 from .scripted_rng import ScriptedRng, enumerate_outcomes
 
 
@@ -15,18 +15,22 @@ def successors(env, state, action, stochastic, outcome_limit=64):
     Exceptions from the real step propagate to the caller."""
     if not stochastic:
         return [env.functional_step(state, action)], True
-    slot = env_slot(env, 'rng')
-    if slot is None:
+    slots = env_rng_slots(env)
+    if not slots:
         env.set_seed(0)  # an environment that was never seeded holds no generator yet: give it one (it is replaced below anyway)
-        slot = env_slot(env, 'rng')
-    if slot is None:
+        slots = env_rng_slots(env)
+    if not slots:
         raise RuntimeError('the environment keeps no generator attribute the harness can script')
-    saved = getattr(env, slot)
+    saved = {k: getattr(env, k) for k in slots}
     results = []
+    unscripted = [False]
 
     def run(rng):
-        setattr(env, slot, rng)
-        return env.functional_step(state, action)
+        for k in slots:
+            setattr(env, k, rng)
+        out = env.functional_step(state, action)
+        unscripted[0] |= bool(getattr(rng, 'unscripted', None))
+        return out
 
     try:
         gen = enumerate_outcomes(run, outcome_limit)
@@ -40,8 +44,21 @@ def successors(env, state, action, stochastic, outcome_limit=64):
             if isinstance(res, Exception):
                 raise res
             results.append(res)
+            if unscripted[0]:
+                break
+        if unscripted[0]:
+            # the step draws in a way that cannot be enumerated (a continuous draw, say): sample real generators instead;
+            # the successor set is then a subset of the possible ones (never claimed complete)
+            import numpy as _np
+            complete = False
+            for seed in range(outcome_limit):
+                g = _np.random.default_rng(seed)
+                for k in slots:
+                    setattr(env, k, g)
+                results.append(env.functional_step(state, action))
     finally:
-        setattr(env, slot, saved)
+        for k, v in saved.items():
+            setattr(env, k, v)
     # distinct successors only
     seen, out = set(), []
     for ns, r, d in results:
